@@ -169,6 +169,10 @@ func check1(c Case) error {
 		f.NoFormat = true
 		f.Type().Id("T").Struct(jen.Id("F").String().Tag(m), jen.Id("G").Int().Tag(m))
 		f.Type().Id("U").StructFunc(func(g *jen.Group) { g.Id("H").Bool().Tag(m) })
+		// elsewhere the same map starts a field that gets a second Tag chained behind it (two literals on
+		// one field are the caller's business); the map and the other fields are not affected
+		other := jen.Id("X").Int().Tag(m).Tag(map[string]string{"zzextra": "1"})
+		_ = other.Render(&strings.Builder{})
 		for k := range outs {
 			b := &strings.Builder{}
 			if err := f.Render(b); err != nil {
